@@ -16,6 +16,7 @@ import (
 	"sync/atomic"
 	"time"
 
+	"github.com/pion/ice/v4/internal/verifhook"
 	"github.com/pion/logging"
 	"github.com/pion/stun/v3"
 	"github.com/pion/transport/v4"
@@ -201,6 +202,7 @@ func (m *UDPMuxDefault) GetConn(ufrag string, addr net.Addr) (net.PacketConn, er
 		muxedConn = m.createMuxedConn(ufrag)
 		go func() {
 			<-muxedConn.CloseChannel()
+			verifhook.Yield("udpmux.closeWatcher.beforeRemove")
 			m.RemoveConnByUfrag(ufrag)
 		}()
 
@@ -352,6 +354,7 @@ func (m *UDPMuxDefault) writeToContext(ctx context.Context, buf []byte, rAddr ne
 		}()
 	}
 
+	verifhook.Yield("udpmux.write.beforeWriteTo")
 	n, err = m.params.UDPConn.WriteTo(buf, rAddr)
 	if err != nil {
 		if ctxErr := ctx.Err(); ctxErr != nil {
@@ -372,6 +375,7 @@ func (m *UDPMuxDefault) abortWrite() error {
 		if !m.writeState.CompareAndSwap(state, state|udpMuxWriteBlockedBit) {
 			continue
 		}
+		verifhook.Yield("udpmux.abort.afterBlocked")
 
 		// The deadline applies to the shared UDPConn, so blocked stays set
 		// until the final in-flight writer clears the deadline in finishWrite.
@@ -381,6 +385,7 @@ func (m *UDPMuxDefault) abortWrite() error {
 			return err
 		}
 
+		verifhook.Yield("udpmux.abort.afterDeadline")
 		m.setWriteDeadlineArmed()
 
 		return nil
@@ -418,6 +423,7 @@ func (m *UDPMuxDefault) finishWrite(writeErr error) error {
 			if !m.writeState.CompareAndSwap(state, state-1) {
 				continue
 			}
+			verifhook.Yield("udpmux.finish.lastWriter")
 
 			return m.clearWriteDeadlineAfterAbort(writeErr)
 		}
@@ -603,6 +609,7 @@ func (m *UDPMuxDefault) connWorker() { //nolint:cyclop
 			continue
 		}
 
+		verifhook.Yield("udpmux.worker.beforeWritePacket")
 		if err = destinationConn.writePacket(buf[:n], srcAddrPort, srcUDPAddr); err != nil {
 			m.params.Logger.Errorf("Failed to write packet: %v", err)
 		}
